@@ -91,11 +91,11 @@ impl Database {
     pub(crate) fn get(&self, query: &str) -> Option<TimeZone> {
         // We just always assume UTC exists and map it to our special const
         // TimeZone::UTC value.
-        if query == "UTC" {
+        if query.eq_ignore_ascii_case("UTC") {
             return Some(TimeZone::UTC);
         }
         // Similarly for the special `Etc/Unknown` value.
-        if query == "Etc/Unknown" {
+        if query.eq_ignore_ascii_case("Etc/Unknown") {
             return Some(TimeZone::unknown());
         }
         let path = self.path.as_ref()?;
